@@ -31,7 +31,8 @@ MANIFEST = {
             "  Third session: application-level histories ask for amounts which use a node's storage / memory up exactly, share cores (core_occupation < 1) and debit what the rank asked for."
             '  Scheduler histories include tasks whose application-supplied slots are invalid (unknown node / core, at any rank position): they must be failed and never placed (invalid-app-slots-granted), the books stay as they were (C03 decides the latter).'
             "  The threaded NodeList workload (shared with C02) checks after every grant that no core / GPU of the granted slot is held more than once and no node's lfs / mem went negative."
-            '  Fourth session: a fifth of the multi-node scheduler layouts have one backup node and one inaccessible node (the real _filter_nodes leaves it out): node indexes with a gap; a quarter of the application-level NodeList histories use gapped node indexes too.',
+            '  Fourth session: a fifth of the multi-node scheduler layouts have one backup node and one inaccessible node (the real _filter_nodes leaves it out): node indexes with a gap; a quarter of the application-level NodeList histories use gapped node indexes too.'
+            '  Application-level slots through the real Pilot object: node list from the resource details of the PMGR_ACTIVE update, find / release through Pilot.nodelist while the pilot keeps receiving updates (same state, with or without resource details): nothing handed out is handed out again.',
     'note': 'components run as threads over the in-memory transport; the fork '
             'is emulated by two objects sharing only the two queues; '
             'Continuous scheduler only (ContinuousJsrun uses another slot '
@@ -196,6 +197,119 @@ def nodelist_history(rng, res):
 
 
 # ------------------------------------------------------------------------------
+# application-level slots through the real Pilot object
+#
+# `Pilot.nodelist` is built from the resource details the agent reports and is
+# the only record of what the application placed itself.  The pilot keeps
+# receiving updates while the application works with it (the agent announces
+# PMGR_ACTIVE on the control channel and on the state channel; later updates
+# carry the same or no resource details): what was handed out stays handed out.
+#
+def pilot_nodelist_history(rng, res):
+    import copy
+    from ..harness import make_pmgr, make_pilot
+
+    cpn = rng.choice([2, 4, 8]); gpn = rng.choice([0, 1, 2])
+    nn  = rng.randint(1, 3)
+    lfs = rng.choice([0, 100]); mem = rng.choice([0, 100])
+    rm_info = {'node_list': [{'index': i, 'name': 'n%d' % i,
+                              'cores': [rpc.FREE] * cpn,
+                              'gpus' : [rpc.FREE] * gpn,
+                              'lfs': lfs, 'mem': mem} for i in range(nn)],
+               'cores_per_node': cpn, 'gpus_per_node': gpn,
+               'lfs_per_node': lfs, 'mem_per_node': mem,
+               'numa_domain_map': None}
+    case = {'kind': 'pilot-nodelist', 'cpn': cpn, 'gpn': gpn, 'nodes': nn,
+            'lfs': lfs, 'mem': mem, 'ops': []}
+
+    pm = make_pmgr()
+    p  = make_pilot(pm, 'pilot.0000')
+    def update(state, with_info):
+        d = {'uid': p.uid, 'type': 'pilot', 'state': state}
+        if with_info:
+            d['resources'] = {'rm_info': copy.deepcopy(rm_info)}
+        pm._update_pilot(d)
+    try:
+        for st in (rps.PMGR_LAUNCHING_PENDING, rps.PMGR_LAUNCHING,
+                   rps.PMGR_ACTIVE_PENDING):
+            update(st, False)
+        update(rps.PMGR_ACTIVE, True)
+        if p.state != rps.PMGR_ACTIVE or p.nodelist is None:
+            res.inconc('pilot nodelist: pilot not active / no node list')
+            return case
+    except Exception as e:
+        res.inconc('pilot nodelist: set-up raised %r' % e)
+        return case
+
+    cores, gpus, amounts = dict(), dict(), dict()
+    live, k = dict(), 0
+    for _ in range(rng.randint(6, 30)):
+        roll = rng.random()
+        if roll < 0.25:
+            # the second announcement of PMGR_ACTIVE, or a later update
+            with_info = rng.random() < 0.7
+            case['ops'].append(['update', with_info])
+            try:
+                update(rps.PMGR_ACTIVE, with_info)
+            except Exception as e:
+                res.violation('pilot-update-raised', repr(e), case)
+                return case
+            res.count('pilot_updates_between_grants')
+            continue
+        if live and roll < 0.5:
+            key = rng.choice(sorted(live))
+            case['ops'].append(['release', key])
+            try:
+                p.nodelist.release_slots(live.pop(key))
+            except Exception as e:
+                res.violation('pilot-nodelist-release-raised', repr(e), case)
+                return case
+            for book in (cores, gpus, amounts):
+                for held in book.values():
+                    held.pop(key, None)
+            continue
+        rr = rp.RankRequirements(
+                n_cores=rng.randint(1, cpn),
+                n_gpus=rng.randint(0, gpn),
+                lfs=rng.choice([0, 0, 50]) if lfs else 0,
+                mem=rng.choice([0, 0, 50]) if mem else 0)
+        n   = rng.choice([1, 1, 2])
+        key = 'a%d' % k; k += 1
+        case['ops'].append(['find', key, rr.as_dict(), n])
+        try:
+            slots = p.nodelist.find_slots(rr, n_slots=n)
+        except ValueError:
+            continue
+        if not slots:
+            continue
+        live[key] = slots
+        res.count('pilot_nodelist_grants')
+        for sl in slots:
+            ni = sl.node_index
+            for what, book, items in (('core', cores, sl.cores),
+                                      ('gpu',  gpus,  sl.gpus)):
+                for c in items:
+                    held = book.setdefault((ni, c.index), dict())
+                    held[key] = held.get(key, 0) + c.occupation
+                    if sum(held.values()) > 1 + EPS:
+                        res.violation('pilot-nodelist-%s-double-booked' % what,
+                                      '%s %d of node %d is held by %s after a '
+                                      'pilot update in between'
+                                      % (what, c.index, ni, sorted(held)), case)
+                        return case
+            for amt, cap, nm in ((rr.lfs, lfs, 'lfs'), (rr.mem, mem, 'mem')):
+                if amt:
+                    held = amounts.setdefault((ni, nm), dict())
+                    held[key] = held.get(key, 0) + amt
+                    if sum(held.values()) > cap + EPS:
+                        res.violation('pilot-nodelist-%s-overcommit' % nm,
+                                      'node %d: %s > %s' % (ni, held, cap),
+                                      case)
+                        return case
+    return case
+
+
+# ------------------------------------------------------------------------------
 #
 def run(ctx):
 
@@ -209,6 +323,13 @@ def run(ctx):
     for i in range(ctx.n(640, 16000)):
         nodelist_threads(rng, res)
         if len(res.violations) > 10:
+            break
+    rng = ctx.rng('pilot-nodelist')
+    n0 = len(res.violations)
+    for i in range(ctx.n(800, 20000)):
+        pilot_nodelist_history(rng, res)
+        res.evaluations += 1
+        if len(res.violations) > n0 + 20 or res.inconclusive:
             break
     rng = ctx.rng('nodelist')
     for i in range(ctx.n(1600, 40000)):
